@@ -80,8 +80,8 @@ impl Alphabets {
             "u8": self.u8_, "i8": self.i8_, "u16": self.u16_, "i16": self.i16_,
             "u32": self.u32_, "i32": self.i32_, "u64": self.u64_, "i64": self.i64_,
             "Uint24": self.u24, "Int24": self.i24, "float": self.f, "string": self.strings,
-            "seq_len": self.seq_lens, "option": ["None", "Some"], "enum": "all variants",
-            "literal #[count(N)] arrays": "exactly N elements",
+            "seq_len": self.seq_lens, "Tag": TAGS, "flags word": "0, every constant declared in the schema's flags block, their union, all ones", "option": ["None", "Some"], "enum": "all variants",
+            "literal #[count(N)] arrays": format!("exactly N elements; for N > {PIN_ABOVE} only elements 0, 1 and N-1 vary, the rest stay default"),
         })
     }
 }
@@ -91,32 +91,54 @@ pub struct TapeDe<'t> {
     pub alpha: &'t Alphabets,
     /// (struct, field) → literal element count declared in the schema
     pub literal_counts: &'t BTreeMap<(String, String), usize>,
+    /// flags type name → alphabet of `bits` values derived from the schema's `flags` block
+    pub flag_alphabets: &'t BTreeMap<String, Vec<u64>>,
+    /// alphabet for the next unsigned scalar (set when entering a flags struct)
+    flag_alpha: Option<&'t Vec<u64>>,
     depth: usize,
     /// struct/field currently being deserialized (consumed by the next seq)
     cur: Option<(&'static str, &'static str)>,
+    /// > 0 while inside an element of a long literal-count array that is pinned to its default
+    frozen: usize,
     /// newtype name wrapping the next scalar (Uint24 / Int24 have narrower ranges than their repr)
     newtype: Option<&'static str>,
 }
 
 pub const MAX_DEPTH: usize = 40;
 
+/// tag alphabet: a neutral tag first, then the tags that hand-written readers dispatch on
+pub const TAGS: [&str; 7] = ["aaaa", "size", "ss01", "cv01", "dlng", "slng", "DFLT"];
+
 impl<'t> TapeDe<'t> {
     pub fn new(
         tape: &'t mut Tape,
         alpha: &'t Alphabets,
         literal_counts: &'t BTreeMap<(String, String), usize>,
+        flag_alphabets: &'t BTreeMap<String, Vec<u64>>,
     ) -> Self {
         TapeDe {
             tape,
             alpha,
             literal_counts,
+            flag_alphabets,
+            flag_alpha: None,
             depth: 0,
             cur: None,
+            frozen: 0,
             newtype: None,
         }
     }
+    /// every decision goes through here; inside a pinned element the default is taken and no
+    /// choice point is recorded
+    fn choose(&mut self, n: u32) -> u32 {
+        if self.frozen > 0 {
+            0
+        } else {
+            self.tape.choose(n)
+        }
+    }
     fn pick<T: Copy>(&mut self, xs: &[T]) -> T {
-        xs[self.tape.choose(xs.len() as u32) as usize]
+        xs[self.choose(xs.len() as u32) as usize]
     }
     fn enter(&mut self) -> Result<(), DeErr> {
         self.depth += 1;
@@ -132,6 +154,11 @@ macro_rules! scalar {
         fn $fn<V: Visitor<'de>>(self, v: V) -> Result<V::Value, DeErr> {
             self.cur = None;
             self.newtype = None;
+            if let Some(fa) = self.flag_alpha.take() {
+                // `bits` of a flags word: 0, every declared constant, their union, all ones
+                let x = self.pick(fa);
+                return v.$visit(x as $ty);
+            }
             let a = self.alpha;
             let x: $ty = self.pick(&a.$field);
             v.$visit(x)
@@ -142,8 +169,11 @@ macro_rules! scalar {
 impl<'de, 'a, 't> de::Deserializer<'de> for &'a mut TapeDe<'t> {
     type Error = DeErr;
 
+    /// `true` only so that `font_types::Tag` asks for a string (`deserialize_str`), which lets the
+    /// tag alphabet contain the tags that select enum variants; nothing else in these crates
+    /// depends on it.
     fn is_human_readable(&self) -> bool {
-        false
+        true
     }
     fn deserialize_any<V: Visitor<'de>>(self, _v: V) -> Result<V::Value, DeErr> {
         Err(DeErr("deserialize_any: format is not self-describing".into()))
@@ -153,7 +183,7 @@ impl<'de, 'a, 't> de::Deserializer<'de> for &'a mut TapeDe<'t> {
     }
     fn deserialize_bool<V: Visitor<'de>>(self, v: V) -> Result<V::Value, DeErr> {
         self.cur = None;
-        let b = self.tape.choose(2) == 1;
+        let b = self.choose(2) == 1;
         v.visit_bool(b)
     }
     scalar!(deserialize_u8, visit_u8, u8_, u8);
@@ -164,6 +194,11 @@ impl<'de, 'a, 't> de::Deserializer<'de> for &'a mut TapeDe<'t> {
     scalar!(deserialize_i64, visit_i64, i64_, i64);
     fn deserialize_u32<V: Visitor<'de>>(self, v: V) -> Result<V::Value, DeErr> {
         self.cur = None;
+        if let Some(fa) = self.flag_alpha.take() {
+            self.newtype = None;
+            let x = self.pick(fa);
+            return v.visit_u32(x as u32);
+        }
         let a = self.alpha;
         let x = if self.newtype.take() == Some("Uint24") {
             self.pick(&a.u24)
@@ -199,8 +234,11 @@ impl<'de, 'a, 't> de::Deserializer<'de> for &'a mut TapeDe<'t> {
         let c = self.pick(&['a', '\0', '\u{10FFFF}']);
         v.visit_char(c)
     }
+    /// only `Tag` deserializes through `deserialize_str` (owned strings use `deserialize_string`)
     fn deserialize_str<V: Visitor<'de>>(self, v: V) -> Result<V::Value, DeErr> {
-        self.deserialize_string(v)
+        self.cur = None;
+        let s = self.pick(&TAGS);
+        v.visit_str(s)
     }
     fn deserialize_string<V: Visitor<'de>>(self, v: V) -> Result<V::Value, DeErr> {
         self.cur = None;
@@ -223,7 +261,7 @@ impl<'de, 'a, 't> de::Deserializer<'de> for &'a mut TapeDe<'t> {
     }
     fn deserialize_option<V: Visitor<'de>>(self, v: V) -> Result<V::Value, DeErr> {
         self.cur = None;
-        if self.tape.choose(2) == 1 {
+        if self.choose(2) == 1 {
             self.enter()?;
             let r = v.visit_some(&mut *self);
             self.depth -= 1;
@@ -270,6 +308,7 @@ impl<'de, 'a, 't> de::Deserializer<'de> for &'a mut TapeDe<'t> {
             fields: None,
             sname: "",
             idx: 0,
+            pinned_total: if lit.map(|n| n > PIN_ABOVE).unwrap_or(false) { n } else { 0 },
         });
         self.depth -= 1;
         r
@@ -283,6 +322,7 @@ impl<'de, 'a, 't> de::Deserializer<'de> for &'a mut TapeDe<'t> {
             fields: None,
             sname: "",
             idx: 0,
+            pinned_total: 0,
         });
         self.depth -= 1;
         r
@@ -314,6 +354,11 @@ impl<'de, 'a, 't> de::Deserializer<'de> for &'a mut TapeDe<'t> {
         v: V,
     ) -> Result<V::Value, DeErr> {
         self.cur = None;
+        self.flag_alpha = if fields.len() == 1 && fields[0] == "bits" {
+            self.flag_alphabets.get(name)
+        } else {
+            None
+        };
         self.enter()?;
         let r = v.visit_seq(Seq {
             de: &mut *self,
@@ -321,6 +366,7 @@ impl<'de, 'a, 't> de::Deserializer<'de> for &'a mut TapeDe<'t> {
             fields: Some(fields),
             sname: name,
             idx: 0,
+            pinned_total: 0,
         });
         self.depth -= 1;
         r
@@ -332,7 +378,7 @@ impl<'de, 'a, 't> de::Deserializer<'de> for &'a mut TapeDe<'t> {
         v: V,
     ) -> Result<V::Value, DeErr> {
         self.cur = None;
-        let idx = self.tape.choose(variants.len() as u32);
+        let idx = self.choose(variants.len() as u32);
         self.enter()?;
         let r = v.visit_enum(EnumAcc { de: &mut *self, idx });
         self.depth -= 1;
@@ -349,7 +395,13 @@ struct Seq<'a, 't> {
     fields: Option<&'static [&'static str]>,
     sname: &'static str,
     idx: usize,
+    /// for a literal-count array longer than PIN_ABOVE: its length; only elements 0, 1 and the last
+    /// are choice points, the others are pinned to their default
+    pinned_total: usize,
 }
+
+/// literal-count arrays up to this length have every element as a choice point
+pub const PIN_ABOVE: usize = 16;
 
 impl<'de, 'a, 't> de::SeqAccess<'de> for Seq<'a, 't> {
     type Error = DeErr;
@@ -363,8 +415,17 @@ impl<'de, 'a, 't> de::SeqAccess<'de> for Seq<'a, 't> {
         self.left -= 1;
         self.de.cur = self.fields.map(|f| (self.sname, f[self.idx]));
         self.de.newtype = None;
+        let i = self.idx;
         self.idx += 1;
-        seed.deserialize(&mut *self.de).map(Some)
+        let pin = self.pinned_total > 0 && !(i == 0 || i == 1 || i + 1 == self.pinned_total);
+        if pin {
+            self.de.frozen += 1;
+        }
+        let r = seed.deserialize(&mut *self.de).map(Some);
+        if pin {
+            self.de.frozen -= 1;
+        }
+        r
     }
     fn size_hint(&self) -> Option<usize> {
         Some(self.left)
